@@ -64,6 +64,19 @@ def case_for(mod, seed: int, tier: str, index: int) -> dict:
     return case
 
 
+def limit_memory() -> None:
+    """Cap the data segment of a worker: code under test that materialises an
+    unbounded stream gets a MemoryError (an attributable outcome of the case)
+    instead of taking the machine down.  A worker with TensorFlow loaded uses
+    about 1.2 GiB of data segment."""
+    import resource
+    cap = int(float(os.environ.get("VERIF_DATA_LIMIT_GB", "3.5")) * 2**30)
+    try:
+        resource.setrlimit(resource.RLIMIT_DATA, (cap, cap))
+    except (ValueError, OSError):  # pragma: no cover
+        pass
+
+
 def _alarm(signum, frame):
     raise CaseTimeout()
 
@@ -101,6 +114,7 @@ def _worker(mod_id: str, seed: int, tier: str, w: int, nw: int, deadline: float,
             max_cases: int, case_timeout: float, out_path: str,
             start: int = 0) -> None:
     faulthandler.enable()
+    limit_memory()
     mod = load_prop(mod_id)
     agg = new_agg()
     i = start + w
@@ -423,7 +437,7 @@ def run_round(mod, mod_id: str, seed: int, tier: str, nw: int, b: dict,
         procs.append(p)
     harness_problems = []
     hard = deadline + b["case_timeout"] + 30
-    mem_limit = float(os.environ.get("VERIF_MEM_LIMIT_GB", "3")) * 2**30
+    mem_limit = float(os.environ.get("VERIF_MEM_LIMIT_GB", "6")) * 2**30
     abnormal = {}
     alive = dict(enumerate(procs))
     while alive:
